@@ -28,7 +28,7 @@ RULE = (
     "hold. Facet preserve-race: 2-3 threads invoke one preserve_context callable under line-level schedules of "
     "eliot/_action.py (generated plans + complete single-preemption enumeration); oracle: the function runs exactly once, "
     "exactly one call returns its result (or raises its exception object), every other call raises TooManyCalls, one "
-    "remote sub-tree is logged with no duplicate level. Facet preserve-seq: wrap with/without a current action, 0-4 "
+    "remote sub-tree is logged with no duplicate level. Facet preserve-seq: wrap with/without a current action, extra keyword arguments of arbitrary names, 0-4 "
     "sequential calls, result or exception; oracle as above plus identity `preserve_context(f) is f` without a current "
     "action. Non-trivial: a hop at depth >= 2, or >= 2 hops, or a merge order that interleaves sides, or a schedule that "
     "switches inside restore_eliot_context. Distinct = canonical JSON of the case."
@@ -108,8 +108,9 @@ def _processify(program, merge):
                 if counter[0] % 3 == 0:
                     node["where"] = "process"
                     node["defer"] = 0
-            if "body" in node:
-                node["body"] = walk(node["body"])
+            for part in ("body", "handler", "final"):
+                if node.get(part):
+                    node[part] = walk(node[part])
             out.append(node)
         return out
 
@@ -230,8 +231,11 @@ def check_seq(case):
     sentinel = object()
     outcomes = []
 
-    def f(a, b=2):
+    received = []
+
+    def f(a, b=2, **kwargs):
         calls[0] += 1
+        received.append(kwargs)
         log_message(message_type="c06:inside", a=a)
         if case["raises"]:
             raise boom
@@ -242,17 +246,19 @@ def check_seq(case):
             with start_action(action_type="c06:origin"):
                 wrapped = preserve_context(f)
                 if case["call_inside"]:
-                    outcomes = _call_n(wrapped, case["calls"], boom, sentinel)
+                    outcomes = _call_n(wrapped, case["calls"], boom, sentinel, case.get("kwargs"))
             if not case["call_inside"]:
-                outcomes = _call_n(wrapped, case["calls"], boom, sentinel)
+                outcomes = _call_n(wrapped, case["calls"], boom, sentinel, case.get("kwargs"))
         else:
             wrapped = preserve_context(f)
             require(wrapped is f, "not-identity", "preserve_context(f) is not f without a current action")
-            outcomes = _call_n(wrapped, case["calls"], boom, sentinel)
+            outcomes = _call_n(wrapped, case["calls"], boom, sentinel, case.get("kwargs"))
         require(current_action() is None, "context", "current action leaked")
     finally:
         Logger._destinations = saved
     n = case["calls"]
+    for kw in received:
+        require(kw == dict(case.get("kwargs") or {}), "arguments-altered", lambda: "f received keyword arguments %r, was called with %r" % (kw, case.get("kwargs")))
     if case["context"]:
         want = (["boom" if case["raises"] else "result"] + ["toomany"] * (n - 1)) if n else []
         require(outcomes == want, "outcomes", lambda: "outcomes %r, expected %r" % (outcomes, want))
@@ -266,11 +272,11 @@ def check_seq(case):
     return {"calls": n}
 
 
-def _call_n(wrapped, n, boom, sentinel):
+def _call_n(wrapped, n, boom, sentinel, kwargs=None):
     out = []
     for i in range(n):
         try:
-            r = wrapped(i, b=5)
+            r = wrapped(i, b=5, **dict(kwargs or {}))
             require(r[0] is sentinel and r[1] == i and r[2] == 5, "result-altered", "result/arguments altered: %r" % (r,))
             out.append("result")
         except TooManyCalls:
@@ -278,20 +284,29 @@ def _call_n(wrapped, n, boom, sentinel):
         except Boom as e:
             require(e is boom, "exception-altered", "exception altered")
             out.append("boom")
+        except Violation:
+            raise
+        except Exception as e:
+            raise Violation("call-raised", "calling the preserve_context callable with (%d, b=5, **%r) raised %r" % (i, kwargs, e))
     return out
 
 
 def classify_seq(case, info):
-    return case["calls"] >= 2 and case["context"], ["calls=%d" % case["calls"], "context" if case["context"] else "no-context", "raises" if case["raises"] else "returns"]
+    labels = ["calls=%d" % case["calls"], "context" if case["context"] else "no-context", "raises" if case["raises"] else "returns"]
+    if case.get("kwargs"):
+        labels.append("extra-keyword-arguments")
+    return case["calls"] >= 2 and case["context"], labels
 
 
 def seq_strategy():
     return st.builds(
-        lambda c, ci, r, n: {"context": c, "call_inside": ci, "raises": r, "calls": n},
+        lambda c, ci, r, n, kw: {"context": c, "call_inside": ci, "raises": r, "calls": n, "kwargs": kw},
         st.booleans(),
         st.booleans(),
         st.booleans(),
         st.integers(0, 4),
+        # whatever the function's parameters happen to be called
+        st.dictionaries(st.sampled_from(["f", "task_id", "called", "args", "kwargs", "self", "action", "func", "x"]), st.integers(0, 3), max_size=3),
     )
 
 
@@ -299,5 +314,5 @@ FACETS = [
     Facet("handoff", handoff_strategy, check_handoff, classify_handoff, quick=600, thorough=15000),
     Facet("preserve-race", race_strategy, check_race, classify_race, quick=300, thorough=20000),
     Facet("preserve-race-enum", None, check_race, classify_race, quick=1, thorough=1, runner=race_enum_runner),
-    Facet("preserve-seq", seq_strategy, check_seq, classify_seq, quick=80, thorough=400, quick_shards=2, thorough_shards=2),
+    Facet("preserve-seq", seq_strategy, check_seq, classify_seq, quick=400, thorough=4000, quick_shards=2, thorough_shards=2),
 ]
